@@ -28,7 +28,7 @@ def TopicRow.createCsub (r : TopicRow) (s : SubRow) : TopicRow :=
   | none => r.setCsub s
 
 def Ctx.csubsCreate (c : Ctx) (tn : TName) (s : SubRow) : Ctx × Bool :=
-  c.call "TopicShare" (fun w => match w.row? tn with
+  c.callFK "TopicShare" s.user (fun w => match w.row? tn with
     | some r => w.setRow (r.createCsub s)
     | none => w)
 
